@@ -349,7 +349,7 @@ def check_case(case):
     sctx = sched.SchedCtx(env, case["prog"])
     acc = []
     for step in case["steps"]:
-        q, outcome, desc = sched.apply_step(p, step, sctx)
+        q, outcome, desc = sched.apply_step_excl(PROP, p, step, sctx)
         if outcome == "accepted":
             p = q
             acc.append(desc["op"])
